@@ -29,4 +29,8 @@ type TreeEntry struct {
 	Path string
 	ID   githash.Hash
 	Kind EntryKind
+	// Mode optionally carries the Git file mode of a blob entry, for example
+	// "100755" for an executable file or "120000" for a symbolic link. When
+	// empty, the entry is written as a regular file ("100644").
+	Mode string
 }
